@@ -30,15 +30,17 @@ CONSTANTS
   Classes,         \* the `classes` value (Seq of Seq of variants)
   MaxLosses, MaxCancels, MaxFails, MaxLaunchFails,
   PfReserve, PfMax, \* proactive filling configuration (SchedulerConfig)
+  Journaling,      \* TRUE: the model keeps the journal (history variable; small instances only) and the restore invariants apply
   Eager            \* TRUE: the scheduler leaves no task behind that still fits somewhere (assumption used for C02)
 
-VARIABLES panic, wkq, submitted, budget, armedFail, drift
+VARIABLES panic, wkq, submitted, budget, armedFail, drift, journal
 \* wkq[w][rq] : Seq([t, inst]) worker backlog of pre-sent tasks in arrival order (popped from the end)
 \* submitted  : menu indices already used;  budget : remaining faults / client requests
 \* armedFail  : tasks whose next launch fails
+\* journal    : what the event sink wrote, in order (Submit, TaskStarted, ..., WorkerLost, JobCompleted); <<>> unless Journaling
 \* drift      : workers on which a promoted pre-sent task found less free resources booked than it needs (monitor for C05)
 
-mvars == <<vars, panic, wkq, submitted, budget, armedFail, drift>>
+mvars == <<vars, panic, wkq, submitted, budget, armedFail, drift, journal>>
 
 NoPanic == panic = ""
 
@@ -449,6 +451,7 @@ Commit(C, J) ==
   /\ exceeded' = ExceededAfter(HistAfter(hist, J.ev))
   /\ panic' = IF C.pn # "" THEN C.pn ELSE J.pn
   /\ drift' = C.drift \cap DOMAIN C.srv
+  /\ journal' = IF Journaling THEN journal \o J.ev ELSE journal
 
 -----------------------------------------------------------------------------
 (* Initial state *)
@@ -462,7 +465,7 @@ Init ==
   /\ fut = {} /\ job = <<>> /\ streams = <<>> /\ now = 0 /\ classes = Classes
   /\ tinfo = <<>> /\ hist = <<>> /\ wstarts = <<>> /\ ranOk = {} /\ tstops = {} /\ cancelAck = <<>> /\ wCancel = {} /\ gaveBack = {}
   /\ nCompleted = <<>> /\ mustCrash = <<>> /\ mayCrash = <<>> /\ exceeded = {}
-  /\ panic = "" /\ submitted = {} /\ armedFail = {} /\ drift = {}
+  /\ panic = "" /\ submitted = {} /\ armedFail = {} /\ drift = {} /\ journal = <<>>
   /\ budget = [losses |-> MaxLosses, cancels |-> MaxCancels, fails |-> MaxFails, launchFails |-> MaxLaunchFails]
 
 unchangedWorkerSide == UNCHANGED <<wkq, fut, wstarts, ranOk, tstops, wCancel, gaveBack, armedFail>>
@@ -491,6 +494,7 @@ ClientSubmit(i) ==
         /\ mustCrash' = [t \in DOMAIN ni |-> 0] @@ mustCrash /\ mayCrash' = [t \in DOMAIN ni |-> 0] @@ mayCrash
         /\ nCompleted' = (j :> 0) @@ nCompleted
         /\ wk' = [w \in DOMAIN wk |-> [wk[w] EXCEPT !.s2w = @ \o C.out[w]]]
+        /\ journal' = IF Journaling THEN Append(journal, [k |-> "Submit", j |-> j, i |-> i]) ELSE journal
   /\ UNCHANGED <<exceeded, wkq, fut, ranOk, tstops, wCancel, gaveBack, armedFail, cancelAck, budget, drift>> /\ unchangedStatic
 
 (* Client: cancel a job (core first, then the job layer; the answer covers the tasks that were not terminal) *)
@@ -772,7 +776,7 @@ WkRecv(w) ==
                IN /\ WCommit(W2, w, rest)
                   /\ wCancel' = wCancel \cup {<<w, t>> : t \in ids}
                   /\ UNCHANGED <<gaveBack>>
-  /\ UNCHANGED <<coreVars, job, tinfo, hist, ranOk, cancelAck, nCompleted, exceeded, mustCrash, mayCrash, panic, submitted, budget, drift>> /\ unchangedStatic
+  /\ UNCHANGED <<coreVars, job, tinfo, hist, ranOk, cancelAck, nCompleted, exceeded, mustCrash, mayCrash, panic, submitted, budget, drift, journal>> /\ unchangedStatic
 
 \* the (fake) task future of execution f ends, successfully or with an error
 TaskExit(f, ok) ==
@@ -781,7 +785,7 @@ TaskExit(f, ok) ==
         WCommit(WTaskEnd(WRec(f.w), f.w, x, IF ok THEN "Finished" ELSE "Failed"), f.w, wk[f.w].s2w)
   /\ ranOk' = IF ok THEN ranOk \cup {[t |-> f.t, w |-> f.w, inst |-> f.inst]} ELSE ranOk
   /\ budget' = IF ok THEN budget ELSE [budget EXCEPT !.fails = @ - 1]
-  /\ UNCHANGED <<coreVars, job, tinfo, hist, cancelAck, nCompleted, exceeded, mustCrash, mayCrash, panic, submitted, wCancel, gaveBack, drift>> /\ unchangedStatic
+  /\ UNCHANGED <<coreVars, job, tinfo, hist, cancelAck, nCompleted, exceeded, mustCrash, mayCrash, panic, submitted, wCancel, gaveBack, drift, journal>> /\ unchangedStatic
 
 \* the launch of a task that is on its way to a worker will fail
 ArmLaunchFail(t) ==
@@ -789,7 +793,7 @@ ArmLaunchFail(t) ==
   /\ \E w \in DOMAIN wk : \E i \in DOMAIN wk[w].s2w : wk[w].s2w[i].k = "Compute" /\ \E k \in DOMAIN wk[w].s2w[i].tasks : wk[w].s2w[i].tasks[k].t = t
   /\ armedFail' = armedFail \cup {t}
   /\ budget' = [budget EXCEPT !.launchFails = @ - 1]
-  /\ UNCHANGED <<vars, panic, wkq, submitted, drift>>
+  /\ UNCHANGED <<vars, panic, wkq, submitted, drift, journal>>
 
 -----------------------------------------------------------------------------
 (* Worker loss (connection closed; fail = the loss counts as a crash of the tasks running there) *)
@@ -834,6 +838,75 @@ Overbooked(w) ==
 C05_NoOverbookModHandover ==
   \A w \in Workers : srv[w].kind = "sn" /\ Overbooked(w) => w \in drift
 \* the worker's own books are never affected: what RUNS on a worker always fits (C04_RunningExclusive)
+
+(* Restart from the journal (server/restore.rs) as a function of a journal prefix, and what a restart must preserve.     *)
+(* Every state is a crash point; the journal may have lost up to MaxCut records at its tail (also in the middle of the *)
+(* records one reactor call emitted).                                                                                 *)
+MaxCut == 3
+RTask0 == [st |-> "Waiting", inst |-> -1, crash |-> 0, ws |-> <<>>]
+RestoreStep(R, ev) ==
+  IF R.pn # "" THEN R
+  ELSE CASE ev.k = "Submit" -> [R EXCEPT !.jobs = (ev.j :> [tasks |-> <<>>, menu |-> ev.i]) @@ @]
+         [] ev.k = "JobCompleted" -> [R EXCEPT !.jobs = Without(@, ev.j)]
+         [] ev.k = "TaskStarted" ->
+              LET j == JobOf(ev.t) IN
+              IF j \notin DOMAIN R.jobs THEN R
+              ELSE LET old == IF ev.t \in DOMAIN R.jobs[j].tasks THEN R.jobs[j].tasks[ev.t] ELSE RTask0
+                   IN [R EXCEPT !.jobs[j].tasks = (ev.t :> [st |-> "Running", inst |-> ev.inst, crash |-> old.crash, ws |-> ev.ws]) @@ @]
+         [] ev.k = "TaskFinished" ->
+              LET j == JobOf(ev.t) IN
+              IF j \notin DOMAIN R.jobs THEN R
+              ELSE IF ev.t \notin DOMAIN R.jobs[j].tasks THEN [R EXCEPT !.pn = "restore_finished_unwrap"]
+              ELSE IF R.jobs[j].tasks[ev.t].st # "Running" THEN [R EXCEPT !.pn = "restore_finished_state"]
+              ELSE [R EXCEPT !.jobs[j].tasks[ev.t].st = "Finished"]
+         [] ev.k = "TaskFailed" ->
+              LET j == JobOf(ev.t) IN
+              IF j \notin DOMAIN R.jobs THEN R
+              ELSE LET old == IF ev.t \in DOMAIN R.jobs[j].tasks THEN R.jobs[j].tasks[ev.t] ELSE RTask0
+                   IN IF old.st \notin {"Waiting", "Running"} THEN [R EXCEPT !.pn = "restore_failed_state"]
+                      ELSE [R EXCEPT !.jobs[j].tasks = (ev.t :> [old EXCEPT !.st = "Failed"]) @@ @]
+         [] ev.k \in {"TasksCanceled", "TasksAborted"} ->
+              LET s == IF ev.k = "TasksCanceled" THEN "Canceled" ELSE "Aborted" IN
+              FoldSeqLeft(LAMBDA RR, t :
+                            LET j == JobOf(t) IN
+                            IF j \notin DOMAIN RR.jobs THEN RR
+                            ELSE LET old == IF t \in DOMAIN RR.jobs[j].tasks THEN RR.jobs[j].tasks[t] ELSE RTask0
+                                 IN [RR EXCEPT !.jobs[j].tasks = (t :> [old EXCEPT !.st = s]) @@ @],
+                          R, ev.ts)
+         [] ev.k = "WorkerLost" ->
+              IF ~ev.fail THEN R
+              ELSE [R EXCEPT !.jobs = [j \in DOMAIN R.jobs |->
+                      [R.jobs[j] EXCEPT !.tasks = [t \in DOMAIN R.jobs[j].tasks |->
+                          LET x == R.jobs[j].tasks[t] IN
+                          IF x.st = "Running" /\ ev.w \in SeqSet(x.ws) THEN [x EXCEPT !.crash = @ + 1] ELSE x]]]]
+         [] ev.k = "JobCancel" -> IF ev.j \notin DOMAIN R.jobs THEN [R EXCEPT !.pn = "restore_jobcancel_unwrap"] ELSE R
+         [] OTHER -> R
+Restore(jr) == FoldSeqLeft(RestoreStep, [jobs |-> <<>>, pn |-> ""], jr)
+\* the restored view of task t of a restored job (tasks without records are waiting)
+RView(R, t) == LET j == JobOf(t) IN IF t \in DOMAIN R.jobs[j].tasks THEN R.jobs[j].tasks[t] ELSE RTask0
+RTasksOf(R, j) == {j * 1000 + Menu[R.jobs[j].menu].tasks[i].id : i \in DOMAIN Menu[R.jobs[j].menu].tasks}
+RPending(R) == {t \in UNION {RTasksOf(R, j) : j \in DOMAIN R.jobs} : RView(R, t).st \in {"Waiting", "Running"}}
+JPrefixes == {SubSeq(journal, 1, n) : n \in (IF Len(journal) > MaxCut THEN Len(journal) - MaxCut ELSE 0)..Len(journal)}
+
+\* C10: a restart succeeds at every crash point
+J_RestoreSucceeds == \A p \in JPrefixes : Restore(p).pn = ""
+\* C10: with the whole journal on disk the restart reproduces the outcomes and forgets exactly the completed jobs
+J_OutcomesRestored ==
+  LET R == Restore(journal) IN
+  /\ DOMAIN R.jobs = {j \in DOMAIN job : ~job[j].completed}
+  /\ \A j \in DOMAIN R.jobs : \A t \in RTasksOf(R, j) :
+        IF Out(t) # "none" THEN RView(R, t).st = Out(t) ELSE RView(R, t).st \in {"Waiting", "Running"}
+\* C06: the instance given to a pending task after the restart is larger than every execution the journal knows
+J_InstFresh ==
+  \A p \in JPrefixes : LET R == Restore(p) IN
+     \A t \in RPending(R) : \A i \in DOMAIN p : p[i].k = "TaskStarted" /\ p[i].t = t => RView(R, t).inst + 1 > p[i].inst
+\* C07: the crash count survives the restart (whole journal: equal to the live counter)
+J_CrashKept ==
+  LET R == Restore(journal) IN \A t \in RPending(R) : t \in DOMAIN task => RView(R, t).crash = task[t].crash
+\* C03: at no crash point a task is restored as pending although a dependency is restored failed / canceled / aborted
+J_DepsConsistent ==
+  \A p \in JPrefixes : LET R == Restore(p) IN
+     \A t \in RPending(R) : \A d \in tinfo[t].deps : RView(R, d).st \notin {"Failed", "Canceled", "Aborted"}
 
 (* step properties *)
 \* C03: an execution starts only after every dependency has finished
